@@ -10,7 +10,7 @@ use serde_json::json;
 pub static MONITOR: Monitor = Monitor {
     id: "C01",
     title: "Rendering is total: any bytes, width and configuration; never panics or hangs",
-    rule: "Each case is one document (grammar-generated, the same with emoji / variation-selector / zero-width-joiner / jamo / wide-space sequences sprinkled into the text, byte-mutated, hostile numeric attributes, byte soup, deep nesting, CSS-bearing) rendered through every public route (string_from_read, lines_from_read, coloured, parse_html->dom_to_render_tree->render_to_string/lines on clones, Display of the tree) at several widths from {0,1,2,..,200,10^5,usize::MAX} under a random configuration from the property's product. Oracle: outcome must be Ok or Err(TooNarrow); a panic (location recorded), fuel exhaustion at a hooked loop, another Err, worker death or wall-clock timeout confirmed in isolation is a violation. A case is non-trivial/distinct by the hash of (outcome kind, output text) of a call that returned Ok with non-empty text.",
+    rule: "Each case is one document (grammar-generated, the same with emoji / variation-selector / zero-width-joiner / jamo / wide-space sequences sprinkled into the text, byte-mutated, hostile numeric attributes, byte soup, deep nesting, CSS-bearing) rendered through every public route (string_from_read, lines_from_read, coloured, parse_html->dom_to_render_tree->render_to_string/lines on clones, Display of the tree; for a third of the cases also a tree built under one decorator and rendered by a configuration with another) at several widths from {0,1,2,..,200,10^5,usize::MAX} under a random configuration from the property's product. Oracle: outcome must be Ok or Err(TooNarrow); a panic (location recorded), fuel exhaustion at a hooked loop, another Err, worker death or wall-clock timeout confirmed in isolation is a violation. A case is non-trivial/distinct by the hash of (outcome kind, output text) of a call that returned Ok with non-empty text.",
     assumptions: &[
         "html5ever's tokenizer/tree builder terminate (outside the repository)",
         "non-termination outside the hooked loops is only detected by the wall-clock watchdog (10 s per call group, 5x in isolation; nesting cases budgeted separately)",
@@ -23,7 +23,11 @@ pub static MONITOR: Monitor = Monitor {
     budget: Some(budget),
 };
 
-const DEPTH_TAGS: [&str; 20] = [
+const DEPTH_TAGS: [&str; 24] = [
+    "template",
+    "section",
+    "alt:div:template",
+    "alt:template:span",
     "div",
     "blockquote",
     "ul",
@@ -47,13 +51,64 @@ const DEPTH_TAGS: [&str; 20] = [
 ];
 const NT: u64 = DEPTH_TAGS.len() as u64;
 
-/// depth cases: every tag at 1000 and 20000 (quick) and 100000 (thorough),
-/// then mixed pairs (outer tag once, inner tag nested deeply)
-fn depth_cases(tier: Tier) -> u64 {
-    match tier {
-        Tier::Quick => 2 * NT + 20,
-        Tier::Thorough => 3 * NT + 60,
+/// Tags whose nesting html5ever parses in linear time (no scope scans), so that
+/// depth 10^5 fits the quick tier.
+const FAST_TAGS: [&str; 11] = ["template", "em", "span", "a", "sup", "strong", "code", "i", "ins", "b", "alt:template:span"];
+
+#[derive(Clone, Copy, PartialEq, Eq, Debug)]
+enum DepthKind {
+    /// <x>^n through string_from_read under a plain and under a rich+overflow configuration
+    Nest,
+    /// one outer element of another kind around <x>^n
+    Mixed,
+    /// a paragraph that is too narrow for the width, then <x>^n: the error leaves
+    /// the whole deep remainder of the tree to be discarded
+    ErrorFirst,
+    /// three-step API on <x>^n: the tree is cloned before it is rendered
+    StagedClone,
+}
+
+#[derive(Clone, Copy, Debug)]
+struct DepthCase {
+    kind: DepthKind,
+    tag: &'static str,
+    n: usize,
+}
+
+fn depth_table(tier: Tier) -> Vec<DepthCase> {
+    let mut t = Vec::new();
+    for &n in &[1_000usize, 20_000] {
+        for tag in DEPTH_TAGS {
+            t.push(DepthCase { kind: DepthKind::Nest, tag, n });
+        }
     }
+    for tag in FAST_TAGS {
+        t.push(DepthCase { kind: DepthKind::Nest, tag, n: 100_000 });
+        t.push(DepthCase { kind: DepthKind::ErrorFirst, tag, n: 100_000 });
+    }
+    t.push(DepthCase { kind: DepthKind::StagedClone, tag: "em", n: 20_000 });
+    let mixed = match tier {
+        Tier::Quick => 20,
+        Tier::Thorough => 60,
+    };
+    for i in 0..mixed {
+        t.push(DepthCase { kind: DepthKind::Mixed, tag: DEPTH_TAGS[i % DEPTH_TAGS.len()], n: 5_000 });
+    }
+    if tier == Tier::Thorough {
+        for tag in DEPTH_TAGS {
+            if !FAST_TAGS.contains(&tag) {
+                t.push(DepthCase { kind: DepthKind::Nest, tag, n: 100_000 });
+            }
+        }
+        for tag in ["blockquote", "ul", "div", "table"] {
+            t.push(DepthCase { kind: DepthKind::ErrorFirst, tag, n: 100_000 });
+        }
+    }
+    t
+}
+
+fn depth_cases(tier: Tier) -> u64 {
+    depth_table(tier).len() as u64
 }
 
 fn plan(tier: Tier) -> Plan {
@@ -74,21 +129,15 @@ fn plan(tier: Tier) -> Plan {
 }
 
 fn budget(tier: Tier, idx: u64) -> u64 {
-    if idx < depth_cases(tier) {
-        let single = match tier {
-            Tier::Quick => 2 * NT,
-            Tier::Thorough => 3 * NT,
-        };
-        if idx >= single {
-            return 60;
-        }
-        match idx / NT {
-            0 => 20,
-            1 => 60,
-            _ => 900,
-        }
-    } else {
-        10
+    let t = depth_table(tier);
+    match t.get(idx as usize) {
+        // html5ever's scope scans make block-level nesting quadratic: ~45 s per parse at 10^5,
+        // several parses per case
+        Some(c) if c.n >= 100_000 && !FAST_TAGS.contains(&c.tag) => 1800,
+        Some(c) if c.n >= 100_000 => 120,
+        Some(c) if c.n >= 20_000 => 60,
+        Some(_) => 60,
+        None => 10,
     }
 }
 
@@ -102,6 +151,8 @@ fn thresholds(_tier: Tier) -> Vec<(&'static str, u64)> {
         ("class:soup", 20),
         ("class:unicode_sequences", 20),
         ("class:depth", 10),
+        ("class:depth_error_first", 5),
+        ("deep_tree_discarded_after_error", 5),
         ("outcome:Ok", 500),
         ("outcome:TooNarrow", 50),
     ]
@@ -237,6 +288,34 @@ pub fn drive(out: &mut CaseOut, input: &[u8], cfg: &Cfg, widths: &[usize]) {
     }
 }
 
+/// Cross-configuration route: tree built under another decorator, rendered by `cfg`.
+fn drive_cross(out: &mut CaseOut, input: &[u8], cfg: &Cfg, widths: &[usize]) {
+    let mut c = cfg.clone();
+    if widths.iter().any(|&w| w > 100_000) {
+        c.pad = false;
+    }
+    let build = cross_build_cfg(&c, input.len() as u64);
+    let r = render_cross(&build, &c, input, widths);
+    out.evals += 1;
+    out.inc("route:cross_config");
+    match &r {
+        Outcome::Ok(v) => {
+            for (i, s) in v.iter().enumerate() {
+                judge(out, "render_to_string(tree built under another decorator)", s, input, widths[i], &c);
+            }
+        }
+        o => {
+            if !o.is_total() {
+                out.violate(
+                    o.fail_sig(),
+                    format!("cross-configuration route (tree built under {}) gave {}", build.deco.name(), o.kind()),
+                    witness(input, widths[0], &c, json!({"route": "cross", "build_config": build.describe(), "outcome": o.kind()})),
+                );
+            }
+        }
+    }
+}
+
 fn run_case(seed: u64, idx: u64, tier: Tier, out: &mut CaseOut) {
     let mut rng = Rng::for_case(seed, "C01", idx);
     let nd = depth_cases(tier);
@@ -247,44 +326,92 @@ fn run_case(seed: u64, idx: u64, tier: Tier, out: &mut CaseOut) {
         return;
     }
     if idx < nd {
-        // deep nesting: <x>^n
-        let single = match tier {
-            Tier::Quick => 2 * NT,
-            Tier::Thorough => 3 * NT,
-        };
-        let tag = DEPTH_TAGS[(idx % NT) as usize];
+        let dc = depth_table(tier)[idx as usize];
+        let (tag, n) = (dc.tag, dc.n);
         out.inc("class:depth");
-        let (input, n) = if idx < single {
-            let n = [1_000usize, 20_000, 100_000][(idx / NT) as usize];
-            (gen::deep_nest(tag, n), n)
-        } else {
-            // one outer element of one kind around a deep nest of another kind
-            let outer = DEPTH_TAGS[rng.below(DEPTH_TAGS.len())];
-            let n = 5_000;
-            let mut v = format!("<{}>", outer).into_bytes();
-            v.extend_from_slice(&gen::deep_nest(tag, n));
-            out.inc("class:depth_mixed");
-            (v, n)
-        };
+        out.inc(match dc.kind {
+            DepthKind::Nest => "class:depth_nest",
+            DepthKind::Mixed => "class:depth_mixed",
+            DepthKind::ErrorFirst => "class:depth_error_first",
+            DepthKind::StagedClone => "class:depth_staged_clone",
+        });
         out.max("depth", n as u64);
-        let cfg = if idx % 2 == 0 {
-            Cfg::plain()
-        } else {
-            let mut c = Cfg::rich();
+        let plain = Cfg::plain();
+        // The configuration that renders every level.  Rich output tags every piece with
+        // the vector of all enclosing annotations, so its size is quadratic in the depth
+        // for elements that emit a piece per level (<sup> gives "^{"): that representation
+        // is the API's, not a defect, and is kept to n = 1000; deeper nests are rendered
+        // by the plain decorator (annotation type ()).
+        let rich_over = {
+            let mut c = if n <= 1_000 || dc.kind == DepthKind::StagedClone { Cfg::rich() } else { Cfg::plain() };
             c.overflow = true;
             c
         };
-        for &w in &[80usize, 5] {
-            let o = render_string(&cfg, &input, w);
-            judge(out, "string_from_read", &o, &input[..input.len().min(60)], w, &cfg);
-            if let Outcome::Ok(s) = &o {
+        let mut observe = |out: &mut CaseOut, o: &Outcome<String>, w: usize, cfg: &Cfg| {
+            if let Outcome::Ok(s) = o {
                 out.observe(crate::rng::hash_str(s) ^ idx);
                 if out.sample.is_none() {
-                    out.sample = Some(json!({"class": "depth", "tag": tag, "n": n, "width": w,
+                    out.sample = Some(json!({"class": "depth", "kind": format!("{:?}", dc.kind), "tag": tag, "n": n, "width": w,
                         "config": cfg.describe(), "output_len": s.len()}));
                 }
             }
+        };
+        match dc.kind {
+            DepthKind::Nest | DepthKind::Mixed => {
+                let input = if dc.kind == DepthKind::Nest {
+                    gen::deep_nest(tag, n)
+                } else {
+                    let outer = DEPTH_TAGS[rng.below(DEPTH_TAGS.len())];
+                    let mut v = format!("<{}>", outer.rsplit(':').next().unwrap_or(outer)).into_bytes();
+                    v.extend_from_slice(&gen::deep_nest(tag, n));
+                    v
+                };
+                // both configurations for every tag: the plain one runs into TooNarrow for
+                // prefix-consuming tags (and then has to discard the rest of the deep tree),
+                // the overflowing one renders all levels
+                for (cfg, w) in [(&plain, 80usize), (&rich_over, 80), (&plain, 5)] {
+                    crate::run::step(&format!("string_from_read:deep-{}", if dc.kind == DepthKind::Nest { "nest" } else { "mixed" }));
+                    let o = render_string(cfg, &input, w);
+                    judge(out, "string_from_read", &o, &input[..input.len().min(60)], w, cfg);
+                    observe(out, &o, w, cfg);
+                }
+            }
+            DepthKind::ErrorFirst => {
+                let mut input = "<p>\u{6F22}\u{5B57}</p>".as_bytes().to_vec();
+                input.extend_from_slice(&gen::deep_nest(tag, n));
+                crate::run::step("string_from_read:too-narrow-before-deep-nest");
+                let o = render_string(&plain, &input, 1);
+                judge(out, "string_from_read", &o, &input[..input.len().min(60)], 1, &plain);
+                if matches!(o, Outcome::TooNarrow) {
+                    out.inc("deep_tree_discarded_after_error");
+                }
+                let o = render_string(&rich_over, &input, 1);
+                judge(out, "string_from_read", &o, &input[..input.len().min(60)], 1, &rich_over);
+                observe(out, &o, 1, &rich_over);
+            }
+            DepthKind::StagedClone => {
+                let input = gen::deep_nest(tag, n);
+                crate::run::step("RenderTree::clone:deep-tree");
+                let st = render_staged_noshow(&rich_over, &input, &[80]);
+                out.evals += 1;
+                match &st {
+                    Outcome::Ok(v) => {
+                        for (s, l) in v.iter() {
+                            judge(out, "render_to_string(clone)", s, &input[..60], 80, &rich_over);
+                            judge(out, "render_to_lines(clone)", l, &input[..60], 80, &rich_over);
+                            observe(out, s, 80, &rich_over);
+                        }
+                    }
+                    o => {
+                        if !o.is_total() {
+                            out.violate(o.fail_sig(), format!("staged route on <{}>^{} gave {}", tag, n, o.kind()),
+                                json!({"tag": tag, "n": n, "outcome": o.kind()}));
+                        }
+                    }
+                }
+            }
         }
+        crate::run::step("-");
         return;
     }
     let class = (idx - nd) % 20;
@@ -397,6 +524,9 @@ fn run_case(seed: u64, idx: u64, tier: Tier, out: &mut CaseOut) {
         }
     }
     drive(out, &input, &cfg, &widths);
+    if out.violations.is_empty() && idx % 3 == 0 {
+        drive_cross(out, &input, &cfg, &widths);
+    }
 }
 
 /// Tables and lists carrying hostile numeric attributes.
